@@ -69,6 +69,17 @@ func main() {
 		os.Exit(explain(pos[1]))
 	case "manifest":
 		os.Exit(writeManifest())
+	case "symbols":
+		p, err := loadProgram(defaultConfig)
+		if err != nil {
+			fmt.Fprintln(os.Stderr, err)
+			os.Exit(2)
+		}
+		if err := writeSymbols(p); err != nil {
+			fmt.Fprintln(os.Stderr, err)
+			os.Exit(2)
+		}
+		return
 	case "list":
 		var ids []string
 		for id := range registry {
@@ -121,6 +132,10 @@ func runProps(ids []string, tier string) int {
 			continue
 		}
 		curProg = p
+		computeRenames(p)
+		for _, n := range renameNotes {
+			fmt.Printf("note: %s\n", n)
+		}
 		for _, id := range ids {
 			oc := outcomes[id]
 			run := newRun(id, p)
